@@ -1,7 +1,7 @@
 #!/usr/bin/env python3
 """Seeded-change bookkeeping.
 
-  seeded.py confirm <P> <mutX>   confirm a candidate from /tmp/wt/out in a scratch worktree (demo passes clean, fails
+  seeded.py confirm <P> <mutX>   confirm a candidate from /tmp/mut/<P>c/MUT (mutC) or /tmp/wt/out in a scratch worktree (demo passes clean, fails
                                  mutated, 869 baseline tests pass mutated) and copy it to /verif/seeded/<P>-<mutX>/
   seeded.py run <dir> [checks..] apply seeded/<dir>/patch.diff to /repo, run the given checks (default: the property's),
                                  revert, record the outcome in seeded/<dir>/result.json
@@ -16,20 +16,19 @@ def sh(cmd, **kw):
 
 
 def confirm(P, mut):
-    src = "/tmp/wt/out/%s/%s" % (P, mut)
+    src = "/tmp/mut/%sc/MUT" % P if os.path.isdir("/tmp/mut/%sc/MUT" % P) and mut == "mutC" else "/tmp/wt/out/%s/%s" % (P, mut)
     wt = "/tmp/wt/confirm_%s_%s" % (P, mut)
+    os.makedirs("/tmp/wt", exist_ok=True)
     sh("git -C /repo worktree remove --force %s" % wt)
     r = sh("git -C /repo worktree add -q %s HEAD" % wt)
     assert r.returncode == 0, r.stderr
     try:
         env = "cd %s && PYTHONPATH=%s /venv/bin/python %s/demo.py" % (wt, wt, src)
         clean = sh(env)
-        ap = sh("git -C %s apply --3way %s/patch.diff" % (wt, src))
-        if ap.returncode != 0:
-            ap = sh("git -C %s apply %s/patch.diff" % (wt, src))
+        ap = sh("git -C %s apply %s/patch.diff" % (wt, src))
         applied = ap.returncode == 0
         mutated = sh(env) if applied else None
-        base = sh("/tmp/wt/tools/baseline.py %s" % wt) if applied else None
+        base = sh("%s/tools/baseline.py %s" % (ROOT, wt)) if applied else None
         ok = clean.returncode == 0 and applied and mutated.returncode != 0 and base.returncode == 0
         res = {"demo_on_clean_rc": clean.returncode, "patch_applies": applied,
                "demo_on_mutated_rc": mutated.returncode if mutated else None,
